@@ -55,6 +55,8 @@ func main() {
 		}
 		fmt.Println(string(b))
 		fmt.Println("re-run: ./bin/gdsa check <property> to re-derive this instance on the current tree")
+	case "guards":
+		debugGuards(os.Args[2:])
 	case "control":
 		// gdsa control <Cnn> <name>: run one negative control in this process
 		if len(os.Args) < 4 {
